@@ -288,7 +288,12 @@ def keyset(name):
 # --------------------------------------------------------------------------------------------------------------
 
 DOCS = [b'', b'hello', 'text éß中\n'.encode('utf-8'), bytes(range(256)) * 5, b'line1\r\nline2\nline3', b'\n\n', b'x' * 70000]
-TEXTS = ['one line', 'a\nb\n', 'a\r\nb\r\n', 'mixed\r\nendings\nhere', 'unicode éß中\nzwei', '', '\n']
+TEXTS = ['one line', 'a\nb\n', 'a\r\nb\r\n', 'mixed\r\nendings\nhere', 'unicode éß中\nzwei', '', '\n',
+         # text in no Unicode normal form (combining marks after their base letters, ANGSTROM / OHM / KELVIN SIGN): hashed as the UTF-8 octets given
+         'e\u0301 a\u0308 \u212b\u2126\u212a\nzwei']
+# cleartext texts with blanks at line ends: PGPy signs them WITH the blanks (finding D10, recorded under C11), so the independent side is
+# left out for them; what is checked here is only that the message PGPy writes out is read back to a message that still verifies
+BLANK_TEXTS = ['trailing blank \nnext\t\n-- \nsignature line', 'ends with blank ']
 
 
 def subject(ks, sname):
@@ -688,6 +693,17 @@ def check_signature(ks, case, sig, who, out):
                 m |= s2
                 if not vkey.verify(m):
                     fail.append('PGPy does not verify the %s-re-imported signature attached to its message' % form)
+                if kind == 'text' and form == 'binary' and who == 'prim':
+                    # the cleartext message as PGPy writes it out, read back: same text, still verifies
+                    # (ASCII texts only: armored text with other characters cannot be read back at all - finding D11, recorded under C10/C11)
+                    for t in [x for x in [TEXTS[int(arg)]] + (BLANK_TEXTS if arg == '0' else []) if x.isascii()]:
+                        mm = pgpy.PGPMessage.new(t, cleartext=True)
+                        mm |= s2 if t is TEXTS[int(arg)] else ks.k.sign(mm)
+                        back = pgpy.PGPMessage.from_blob(str(mm))
+                        if back.message != mm.message and back.message.replace('\r\n', '\n') != mm.message.replace('\r\n', '\n'):
+                            fail.append('cleartext message written out and read back has another text: %r -> %r' % (mm.message[:40], back.message[:40]))
+                        if not vkey.verify(back):
+                            fail.append('cleartext message %r written out and read back does not verify under PGPy' % t[:30])
         except Exception as ex:
             fail.append('PGPy %s re-import/verify raises %s: %s' % (form, type(ex).__name__, str(ex)[:80]))
     return raw
